@@ -36,6 +36,7 @@ class ConnTranslator:
         self.g_sid = {}          # reconnect goroutine -> sid
         self.unbound = []        # sids created whose goroutine has not shown up yet
         self.g_w = {}            # goroutine -> (waiter id, state) of its current waitForConnection call
+        self.g_exec = {}         # goroutine -> outcome of its last command execution whose follow-up has not been seen
         self.asserts = 0
 
     def act(self, s):
@@ -76,6 +77,14 @@ class ConnTranslator:
             self.g_w[g] = [w, "returned"]
         self.asserts += 1
 
+    def after(self, g, what):
+        """what DoCommand did after the last execution of the command by goroutine g"""
+        out = self.g_exec.pop(g, None)
+        if out is None:
+            return
+        self.act("?after %s %d 0 %s" % (out, 1 if out == "retry" else 0, what))
+        self.asserts += 1
+
     def flush_to_release(self, sid):
         q = self.seq[sid]
         ph = q["phase"]
@@ -109,6 +118,7 @@ class ConnTranslator:
             elif k == "L":
                 g, fn = t[2], t[3]
                 if fn == "Connection.waitForConnection":
+                    self.after(g, "waitForConnectionThenRerun")
                     self.new_waiter(i, g, g.startswith("@force"))
                 elif fn == "Connection.getReconnectChan":
                     self.new_waiter(i, g, True, phantom=True)
@@ -222,7 +232,11 @@ class ConnTranslator:
         if k == "disc":
             self.act("disconnect")
             return
+        if k == "oncmderr":
+            self.after(g, "backoffThenRerun")
+            return
         if k == "exec":
+            self.g_exec[g] = ev[4]
             w = self.g_w.get(g)
             if w is not None:
                 self.act("?wpc %d ret:nil" % w[0])
@@ -234,6 +248,8 @@ class ConnTranslator:
         if k == "cmde":
             w = self.g_w.get(g)
             res = ev[2]
+            if g in self.g_exec:
+                self.after(g, "returnNil" if res == "ok" else "returnErr:" + res)
             if w is not None and w[1] in ("released", "ctx", "waiting") and res in RET:
                 self.act("?wpc %d %s" % (w[0], RET[res]))
                 self.asserts += 1
